@@ -185,6 +185,30 @@ def power_of_each_event(ctx, w):
                     bad.append((key[-40:], a[2][:160]))
             elif name in ("insert", "entry", "extend") and ("HashMap" in e[0] or "BTreeMap" in e[0]) and len(a) >= 2 and "get_power_level_for_sender" in " ".join(a[1:]):
                 others.add((e[0].rsplit("::", 2)[-2] + "::" + name, a[1][:80]))
+    if n_ins == 0:
+        # `graph.keys().map(|id| Ok((id.clone(), level_of(id)?))).collect::<Result<HashMap<_, _>>>()`: the same obligation on the mapping closure -
+        # a pure function of the key it is called with (its captures are the loop-invariant inputs)
+        done = False
+        for g in w.all_fns():
+            if not g["path"].startswith(SR + "reverse_topological_power_sort::{closure") or "body" not in g:
+                continue
+            if not any("get_power_level_for_sender" in M.callee_name(c) for _, c in M.calls(g["body"])):
+                continue
+            used = any(re.search(r"Iterator::collect\(Iterator::map\(HashMap::keys\(.*closure\[" + re.escape(g["path"]) + r"\]", D.show_atom(a))
+                       for p in paths for a, _ in p.conds)
+            cps = D.Dex(w.lookup, adt_discr=w.adt_discr, inline=lambda n: False).paths(g, [D.sym("env"), D.sym("x")])
+            oks = [p for p in cps if p.kind == "ret" and U.is_ok(p.ret)]
+            good = used and bool(oks) and all(p.kind == "ret" for p in cps)
+            for p in oks:
+                m = re.fullmatch(r"Result::Ok\(\((.*?), ruma_state_res::get_power_level_for_sender\((.*)\)\.Ok\.0\)\)", D.show(p.ret))
+                good = good and m is not None and _strip_views(m.group(1)) == "x" and _strip_views(m.group(2).split(",")[0]) == "x"
+            if good:
+                n_ins += 10
+                done = True
+            else:
+                bad.append((g["path"][-30:], [D.show(p.ret)[:160] for p in oks][:2]))
+        if not done and not bad:
+            bad.append(("?", "no per-key insert and no mapping closure over graph.keys() was recognised"))
     ctx.floor("power level inserts seen on paths of reverse_topological_power_sort", n_ins, 10)
     if bad:
         ctx.violation("C06.power-of-each-event", "C06.power-of-each-event:value", w.where(f),
